@@ -164,11 +164,11 @@ class C19(Prop):
                 runs.append(_ClassRun(D, builder, cls, tag, by_key.get((cls, tag))))
         return runs
 
-    def _one_open(self, cr: _ClassRun, plan):
-        """Fresh instance, open() under `plan` (None or D.Plan). Returns (Built, Obs)."""
+    def _one_open(self, cr: _ClassRun, plan, entry: str = "open"):
+        """Fresh instance, open() — or `__enter__()`, what `with instr:` calls — under `plan` (None or D.Plan)."""
         b = cr.builder.build(cr.cls, cr.variant)
         b.sess.reset_counters(plan)
-        o = cr.D.call_traced(b, "open", cr.maps["open"])
+        o = cr.D.call_traced(b, entry, cr.maps["open"])
         return b, o
 
     def _model_plan(self, cr: _ClassRun, which: str, o) -> str:
@@ -310,7 +310,25 @@ class C19(Prop):
                     res.sample({"class": cr.name, "fault": f"call #{k} ({fired_at[1]}) raises {kind}",
                                 "statement": cr.site_text("open", fired_at[2]),
                                 "impl": {"result": o.result, "is_open": o.flag, "links": o.links}, "model_plan": plan})
+        # the same faults through the other way to open an instrument: `with instr:` = __enter__() / __exit__()
+        found_open, found = found, {}
+        for k in range(1, n_calls + 1):
+            for kind in (("timeout",) if getattr(self, "_tier_quick", True) else D.EXC_KINDS):
+                b, o = self._one_open(cr, D.Plan(k, kind), entry="__enter__")
+                record_model(o, f"__enter__ {k}:{kind}")
+                judge(b, o, k, kind)
+                res.note_case((cr.name, "enter", k, kind, o.result, o.flag), nontrivial=b.sess.fired is not None or True)
+                res.count("with_statement_entry_runs")
+        found_enter, found = found, found_open
         fails = []
+        for (owner, ordinal, src, clause), e in sorted(found_enter.items()):
+            if (owner, ordinal, src, clause) in found and e["kinds"] <= found[(owner, ordinal, src, clause)]["kinds"]:
+                continue            # the same failure as through open(): reported there
+            kinds = ",".join(sorted(e["kinds"]))
+            sig = f"{owner}.open stmt {ordinal} `{src}` via `with instr:` (__enter__) -> {clause} [{kinds}]"
+            fails.append(Failure(sig, f"{cr.name}: entered through __enter__(): fault ({kinds}) in statement {ordinal} `{src}` of "
+                                      f"{owner}.open() -> {clause}; {e['detail']}",
+                                 {"kind": "fault", **e["first"], "entry": "__enter__", "signature": sig}))
         for (owner, ordinal, src, clause), e in sorted(found.items()):
             kinds = ",".join(sorted(e["kinds"]))
             sig = f"{owner}.open stmt {ordinal} `{src}` -> {clause} [{kinds}]"
@@ -550,6 +568,9 @@ class C19(Prop):
             if not isinstance(op, str):
                 plan = D.Plan(int(op[1]), str(op[2]))
                 op = str(op[0])
+            meth = {"enter": "__enter__", "exit": "__exit__"}.get(op, op)      # `with instr:` enters / leaves
+            margs = (None, None, None) if op == "exit" else ()
+            op = {"enter": "open", "exit": "close"}.get(op, op)
             b.sess.reset_counters(plan)
             opens0 = dict(b.sess.link_opens)
             closes0 = dict(b.sess.link_closes)
@@ -562,7 +583,7 @@ class C19(Prop):
                 if v != ref_open:
                     clause = clause or "is_open-wrong-after-history"
                 continue
-            o = D.call_traced(b, op, cr.maps[op])
+            o = D.call_traced(b, meth, cr.maps[op], *margs)
             if with_model and cr.prog is not None:
                 lines.append(f"{op} {self._model_plan(cr, op, o)}")
                 impl.append(self._impl_line(cr, op, o))
@@ -710,6 +731,136 @@ class C19(Prop):
                                       "transport": kind, "op": op, "way": way, "signature": sig}))
         return fails
 
+    # -- `with proxy:` through a real QMI_Context ---------------------------------------------------------------------
+    def _proxy_sweep(self, ctx: Ctx, res: Result, runs: list) -> list:
+        """Every class is created with context.make_instrument() in a real (in-process) QMI_Context and entered with
+        `with proxy:` (QMI_RpcProxy.__enter__ → RPC → QMI_Instrument.__enter__ on the object's thread) while the k-th
+        transport call fails; same oracle.  Finally context.stop() runs with one instrument still open."""
+        from harness import c19_dyn as D
+        import qmi.core.context as QC
+        import qmi.core.messaging as QM
+        import sys as _sys
+        fails, found = [], {}
+        orig_udp = QM.MessageRouter.start_udp_responder
+        QM.MessageRouter.start_udp_responder = lambda self_, port: None      # no sockets of our own on the host
+        qctx = QC.QMI_Context("c19ctx")
+        qctx.start()
+        serial = [0]
+        kinds = ("timeout",) if ctx.quick else D.EXC_KINDS
+        left_open = None
+        try:
+            for cr in runs:
+                src_mod = _sys.modules[cr.cls.__module__]
+                if "QMI_Thread" in vars(src_mod):
+                    res.count("proxy_classes_skipped(own background thread)")
+                    continue
+                try:
+                    cr.builder.build(cr.cls, cr.variant)
+                    kw = cr.builder._ok_kwargs[(cr.cls, cr.variant)]
+                except Exception:
+                    continue
+                res.count("proxy_classes")
+                mods = {_sys.modules[k.__module__] for k in cr.cls.__mro__ if k.__module__.startswith("qmi.instruments.")}
+
+                def enter(plan):
+                    sess = D.Session(owner_thread=None)
+                    sess.script = D.script_for(cr.cls)
+                    sess.tracked_codes = {m.code: m for m in cr.maps["open"]}
+                    made = []
+
+                    def fake_create(desc, default_attributes=None):
+                        t = cr.builder.Fake(sess, "?", str(desc))
+                        made.append(t)
+                        return t
+                    saved = [(m, m.__dict__["create_transport"]) for m in mods if "create_transport" in m.__dict__]
+                    for m, _ in saved:
+                        m.__dict__["create_transport"] = fake_create
+                    serial[0] += 1
+                    try:
+                        proxy = qctx.make_instrument(f"dut{serial[0]}", cr.cls, **kw)
+                    finally:
+                        for m, f in saved:
+                            m.__dict__["create_transport"] = f
+                    sess.reset_counters(plan)
+                    exc = ""
+                    with D.VirtualTime(), D._Alarm(30):
+                        try:
+                            proxy.__enter__()
+                        except Exception as e:
+                            exc = f"{type(e).__name__}: {str(e)[:80]}"
+                        flag = bool(proxy.is_open())
+                    return proxy, sess, made, flag, exc
+
+                def dispose(proxy, made, sess):
+                    sess.reset_counters(None)
+                    try:
+                        if proxy.is_open():
+                            proxy.__exit__(None, None, None)
+                    except Exception:
+                        pass
+                    try:
+                        qctx.remove_rpc_object(proxy)
+                    except Exception:
+                        pass
+                try:
+                    proxy, sess, made, flag, exc = enter(None)
+                    n_calls = sess.n
+                    ok0 = flag and all(t._is_open for t in made) and not exc
+                    res.count("proxy_fault_free_enter_ok" if ok0 else "proxy_fault_free_enter_fails")
+                    if ok0 and left_open is None and cr.variant == "":
+                        left_open = (proxy, made)            # stays open until context.stop()
+                    else:
+                        dispose(proxy, made, sess)
+                    for k in range(1, n_calls + 1):
+                        for kind in kinds:
+                            proxy, sess, made, flag, exc = enter(D.Plan(k, kind))
+                            links = {i: bool(t._is_open) for i, t in enumerate(made)}
+                            clause = D.classify(flag, links)
+                            res.note_case((cr.name, "proxy", k, kind, flag, tuple(links.values())), nontrivial=True)
+                            res.count("proxy_enter_runs")
+                            if clause is None:
+                                sess.reset_counters(None)
+                                with D.VirtualTime(), D._Alarm(30):
+                                    try:
+                                        if flag:
+                                            proxy.__exit__(None, None, None)
+                                            if proxy.is_open() or any(t._is_open for t in made):
+                                                clause = "leaving `with` does not close the instrument"
+                                        elif ok0:
+                                            with proxy:
+                                                pass
+                                            if proxy.is_open() or any(t._is_open for t in made):
+                                                clause = "retried `with proxy:` does not end closed"
+                                    except Exception as e:
+                                        clause = f"{'exit' if flag else 'retry'} fails ({type(e).__name__})"
+                            if clause:
+                                site = sess.fired[2] if sess.fired else None
+                                owner, ordinal, src = cr.site_text("open", site)
+                                e = found.setdefault((owner, ordinal, src, clause), {"kinds": set(), "first": None, "detail": ""})
+                                e["kinds"].add(kind)
+                                if e["first"] is None:
+                                    e["first"] = {"class": cr.cls.__name__, "module": cr.cls.__module__, "variant": cr.variant,
+                                                  "k": k, "fault_kind": kind}
+                                    e["detail"] = f"{cr.name}: `with proxy:` raised {exc!r}; proxy.is_open()={flag} links={links}"
+                            dispose(proxy, made, sess)
+                except Exception as e:
+                    res.count("proxy_harness_errors")
+                    res.extra.setdefault("proxy_errors", []).append(f"{cr.name}: {type(e).__name__}: {str(e)[:120]}")
+        finally:
+            try:
+                qctx.stop()
+                res.count("context_stop_with_open_instrument_ok" if left_open else "context_stop_ok")
+                if left_open is not None:
+                    res.count("links_still_open_after_context_stop", sum(1 for t in left_open[1] if t._is_open))
+            except Exception as e:
+                res.broken.append(Broken("correspondence", "C19.context_stop", f"context.stop() with an open instrument raised {type(e).__name__}: {e}"))
+            QM.MessageRouter.start_udp_responder = orig_udp
+        for (owner, ordinal, src, clause), e in sorted(found.items()):
+            kinds_s = ",".join(sorted(e["kinds"]))
+            sig = f"{owner}.open stmt {ordinal} `{src}` via `with proxy:` -> {clause} [{kinds_s}]"
+            fails.append(Failure(sig, f"{sig}; {e['detail']}", {"kind": "proxy", **e["first"], "signature": sig}))
+        return fails
+
     # -- drivers that are not transport-based: the flag protocol of QMI_Instrument alone ---------------------------
     def _base_histories(self, ctx: Ctx, res: Result, lines, impl, meta, with_model: bool):
         """QMI_Instrument itself and every shipped driver that inherits open()/close() unchanged and can be constructed
@@ -807,6 +958,7 @@ class C19(Prop):
                           "flag-protocol histories on non-transport drivers. "
                           "non-trivial = the fault actually fired; distinct by (class, k, kind, outcome)")
         from harness import c19_dyn as D
+        self._tier_quick = ctx.quick
         runs = self._class_runs()
         lines, impl, meta = [], [], []
         model_bad = {}
@@ -853,7 +1005,7 @@ class C19(Prop):
                 res.broken.append(Broken("correspondence", f"C19.endpoints.{cr.name}",
                                          f"{type(e).__name__}: {e}\n{traceback.format_exc()[-1500:]}"))
             # histories
-            n_hist = ctx.scale(10, 150)
+            n_hist = ctx.scale(12, 150)
             # fixed corpus, run first on every seed: the same operation twice, unusual order, one object reused over
             # several rounds, a faulty open() on an open instrument, the same fault twice, a fault index beyond the end,
             # a fault in close() followed by a second close()/open()
@@ -864,6 +1016,8 @@ class C19(Prop):
                      [["open", 2, "timeout"], ["open", 2, "timeout"], "open", "isopen", "close", ["open", n_calls + 5, "os"], "close"],
                      ["open", "close", "open", "close", "open", "close", "isopen"],
                      ["open", ["close", 1, "os"], "isopen", "close", "open", "close"],
+                     ["enter", "isopen", "enter", "exit", "isopen", "exit", "enter", "close", "open", "exit"],
+                     [["enter", n_calls, "timeout"], "isopen", "exit", "enter", "exit"],
                      [["open", n_calls, "instr"], "close", "open", ["close", 2, "timeout"], "isopen"]]
 
             def gen_op():
@@ -927,6 +1081,11 @@ class C19(Prop):
                 res.broken.append(Broken("correspondence", f"C19.transport_guard.{m}",
                                          f"the static analysis finds no open-state guard before the endpoint access in {m} (theorem "
                                          f"transport_io_bare) but no history on the real transport classes reaches the device through it"))
+        if only is None:
+            try:
+                res.failures += self._proxy_sweep(ctx, res, runs)
+            except Exception as e:
+                res.broken.append(Broken("correspondence", "C19.proxy_sweep", f"{type(e).__name__}: {e}\n{traceback.format_exc()[-1500:]}"))
         if only is None:
             try:
                 res.failures += self._establish_sweep(None, ctx, res)
